@@ -27,6 +27,7 @@ REDUCE_KINDS = ('reduce', 'allreduce', 'scan', 'exscan', 'reduce_scatter', 'redu
 INPLACE_OK = ('reduce', 'allreduce', 'scan', 'exscan', 'reduce_scatter', 'reduce_scatter_block', 'gather', 'gatherv',
               'scatter', 'scatterv', 'allgather', 'allgatherv', 'alltoall', 'alltoallv')
 ROOTED = ('bcast', 'reduce', 'gather', 'gatherv', 'scatter', 'scatterv')
+BUILTIN_KINDS = ['gatherv', 'scatterv', 'scan', 'exscan', 'alltoallw']
 # at most this many base items in one rank's largest buffer
 MAX_ITEMS = 160000
 
@@ -40,8 +41,13 @@ def algo_of(plan, call):
         return call['kind'], 'builtin'
     a = plan['cfg'].get('smpi/' + coll)
     if a is None:
-        a = 'sel_' + plan['cfg'].get('smpi/coll-selector', 'default')
+        sel = plan['cfg'].get('smpi/coll-selector', 'default')
+        a = 'default' if sel == 'default' else 'sel_' + sel
     return coll, a
+
+
+def is_suspect_call(plan, call):
+    return list(algo_of(plan, call)) == list(plan.get('suspect', algo_of(plan, call)))
 
 
 def _pick_count(r, np, kind, tier):
@@ -251,47 +257,77 @@ class C29(dst.Check):
     real_vs_stub = {'SMPI collectives, selectors, NBC, datatypes, ops': 'real', 'SimGrid kernel + network model': 'real',
                     'MPI application': 'real (generated plan interpreter sim/mpicoll.c)',
                     'reference results': 'lib/refmpi_coll.py sequential definitions'}
-    budgets = {'quick': dict(runs=1500, wall=55), 'thorough': dict(runs=26000, wall=840)}
+    budgets = {'quick': dict(runs=3000, wall=60), 'thorough': dict(runs=40000, wall=840)}
     max_reported = 2000
     shrink_budget = 30
     workers = 16
 
     # ---- generation ---------------------------------------------------------------------------------------
     def gen(self, seed, tier):
+        """One SUSPECT per plan: a (collective, algorithm) pair of the running tree - or a non-blocking / single-
+        implementation collective - exercised by about half of the calls; every other call is a blocking collective
+        under the default selector (context: back-to-back interference, tag reuse).  Every failure of the run is blamed
+        on the suspect, so a fragile algorithm cannot make an innocent one look guilty through a stray message."""
         r = Rng(seed, 'c29')
         algos = mc.algorithms()
         np = r.wchoice([(1, 1), (2, 3), (3, 4), (4, 4), (5, 4), (6, 3), (7, 3), (8, 4), (9, 3), (10, 2), (11, 2), (12, 3),
                         (13, 2), (14, 1), (15, 2), (16, 3), (17, 3)])
         plat, hosts = mc.gen_platform(Rng(seed, 'platform'), np)
-        cfg = {'smpi/coll-selector': r.wchoice([('default', 3), ('ompi', 2), ('mpich', 2), ('mvapich2', 1.5), ('impi', 1.5)])}
-        nfocus = r.choice([1, 1, 2, 2, 3])
-        focus = r.sample([c for c in TUNABLE if c in algos], nfocus)
-        for coll in focus:
-            cfg['smpi/' + coll] = r.choice(algos[coll])
+        cfg = {'smpi/coll-selector': 'default'}
+        pairs = [(c, a) for c in TUNABLE if c in algos for a in algos[c]]
+        stype = r.wchoice([('algo', 80), ('selector', 6), ('nbc', 9), ('builtin', 5)])
+        focus = os.environ.get('VERIF_C29_FOCUS')      # development aid (sensitivity runs): 'coll:algo' forces the suspect
+        if focus:
+            fc, fa = focus.split(':')
+            stype = 'nbc' if fa == 'nbc' else 'builtin' if fa == 'builtin' else 'selector' if fa.startswith('sel_') else 'algo'
+        if stype == 'algo':
+            coll, algo = pairs[r.below(len(pairs))]
+            if focus:
+                coll, algo = fc, fa
+            cfg['smpi/' + coll] = algo
+            skinds = [k for k in ALL_KINDS if ALGO_OF_KIND.get(k) == coll]
+            snb = 0
+        elif stype == 'selector':
+            coll = r.choice([c for c in TUNABLE if c in algos])
+            sel = r.choice(SELECTORS[1:])
+            if focus:
+                coll, sel = fc, fa[4:]
+            algo = 'sel_' + sel
+            cfg['smpi/coll-selector'] = sel
+            skinds = [k for k in ALL_KINDS if ALGO_OF_KIND.get(k) == coll]
+            snb = 0
+        elif stype == 'nbc':
+            coll, algo = (fc if focus else r.choice(ALL_KINDS)), 'nbc'
+            skinds = [coll]
+            snb = 1
+        else:
+            coll, algo = (fc if focus else r.choice(BUILTIN_KINDS)), 'builtin'
+            skinds = [coll]
+            snb = 0
         kn = Rng(seed, 'knobs')
-        if kn.chance(0.6):      # SMPI requires async-small-thresh <= send-is-detached-thresh (default 65536)
-            a, b = sorted([kn.choice([0, 16, 1024, 65536, 1000000]), kn.choice([0, 16, 1024, 65536, 1000000])])
-            cfg['smpi/send-is-detached-thresh'] = b
-            cfg['smpi/async-small-thresh'] = a
+        if kn.chance(0.6):
+            # smpi/async-small-thresh stays at its default (0): a non-zero value makes SMPI match a small message before an
+            # older large one of the same (source, tag) - a point-to-point ordering defect (C28) that would show up here
+            # as random failures of every algorithm issuing back-to-back messages of different sizes
+            kn.choice([0, 16, 1024, 65536, 1000000])
+            cfg['smpi/send-is-detached-thresh'] = kn.choice([0, 16, 1024, 65536, 1000000])
         if kn.chance(0.08):
             cfg['smpi/barrier-collectives'] = 'yes'
-        ncalls = r.randint(5, 30 if tier == 'thorough' else 18)
+        ncalls = r.randint(5, 30 if tier == 'thorough' else 14)
+        # context kinds: blocking, default algorithms; under a whole non-default selector only the single-implementation ones
+        ctx = BUILTIN_KINDS if stype == 'selector' else [k for k in ALL_KINDS if k not in skinds]
         calls = []
-        focus_kinds = [k for k in ALL_KINDS if ALGO_OF_KIND.get(k) in focus]
         for i in range(ncalls):
-            if i < len(focus_kinds) or r.chance(0.45):
-                kind = focus_kinds[i] if i < len(focus_kinds) else r.choice(focus_kinds)
-                nb = 0
+            if i == 0 or r.chance(0.5):
+                calls.append(gen_call(r, np, r.choice(skinds), tier, snb))
             else:
-                kind = r.choice(ALL_KINDS)
-                nb = None
-            calls.append(gen_call(r, np, kind, tier, nb))
+                calls.append(gen_call(r, np, r.choice(ctx), tier, 0))
         r.shuffle(calls)
-        plan = dict(np=np, plat=plat, hosts=hosts, cfg=cfg, calls=calls)
+        plan = dict(np=np, plat=plat, hosts=hosts, cfg=cfg, calls=calls, suspect=[coll, algo])
         for c in calls:
             # MPI_Alltoallv(MPI_IN_PLACE) with a type whose extent exceeds its size is mishandled by the binding, before
             # any algorithm runs (known finding, keyed on the default algorithm): do not multiply it by every algorithm
-            if c['kind'] == 'alltoallv' and c['inplace'] and c['rdt'] == 'v2' and algo_of(plan, c)[1] != 'sel_default':
+            if c['kind'] == 'alltoallv' and c['inplace'] and c['rdt'] == 'v2' and plan['suspect'] != ['alltoallv', 'default']:
                 c['sdt'] = c['rdt'] = 'c2'
         return plan
 
@@ -315,6 +351,8 @@ class C29(dst.Check):
                     T[(int(p[1]), int(p[2]))] = (float.fromhex(p[3]), float.fromhex(p[4]), int(p[5]))
                 elif line.startswith('D '):
                     D.add(int(line.split()[1]))
+                elif line.startswith('K '):
+                    last['killed'] = int(line.split()[1])
                 elif line.startswith('S ') or line.startswith('X '):
                     p = line.split()
                     last[int(p[2])] = int(p[1])
@@ -339,15 +377,33 @@ class C29(dst.Check):
 
     # ---- oracle -------------------------------------------------------------------------------------------
     def _tag(self, plan, i):
-        c = plan['calls'][i]
+        """(collective, algorithm, '[key=value ...]') for a failure seen at call i.  Collective and algorithm are the
+        plan's suspect; the keys describe call i when it is a suspect call, else the closest suspect call before it
+        (a stray message of a broken algorithm is only noticed by a later call) with ctx=<kind of call i>."""
         np = plan['np']
-        coll, algo = algo_of(plan, c)
+        ctx = None
+        if 'suspect' in plan and not is_suspect_call(plan, plan['calls'][i]):
+            ctx = plan['calls'][i]['kind']
+            before = [j for j in range(i) if is_suspect_call(plan, plan['calls'][j])]
+            after = [j for j in range(i + 1, len(plan['calls'])) if is_suspect_call(plan, plan['calls'][j])]
+            if before or after:
+                i = before[-1] if before else after[0]
+        c = plan['calls'][i]
+        coll, algo = plan['suspect'] if 'suspect' in plan else algo_of(plan, c)
+        if ctx is None:
+            ctx = '-'
         cnt = max(c['scount'], c['rcount'])
         if 'rcounts' in c or 'scounts' in c:
             cnt = max(c.get('rcounts', [0]) + c.get('scounts', [0]))
+        smp = 'smp' if len(set(plan['hosts'])) < np else 'one'
+        vuni = 1
+        for name in ('rcounts', 'scounts'):
+            if name in c and len(set(c[name])) > 1:
+                vuni = 0
         return coll, algo, ('[call=%d kind=%s coll=%s algo=%s np=%d npc=%s cnt=%d cntc=%s sdt=%s rdt=%s op=%s inplace=%d '
-                            'nb=%d root=%d]' % (i, c['kind'], coll, algo, np, mc.np_class(np), cnt, mc.count_class(cnt, np),
-                                                c['sdt'], c['rdt'], c['op'], c['inplace'], c['nb'], c['root']))
+                            'nb=%d root=%d map=%s vuni=%d ctx=%s]' % (
+                                i, c['kind'], coll, algo, np, mc.np_class(np), cnt, mc.count_class(cnt, np),
+                                c['sdt'], c['rdt'], c['op'], c['inplace'], c['nb'], c['root'], smp, vuni, ctx))
 
     def _verdict(self, plan, res):
         """fills res['viol'] (list of [cls,msg]), res['refused'] (list), res['checked'] (list of call indexes)"""
@@ -425,7 +481,11 @@ class C29(dst.Check):
             m = re.search(r'^\[[^\]:]*:[^\]:]*:\((\d+)\) [0-9.]+\] .*(CRITICAL|Assertion|xception)', res['err'], re.M)
             if not res['timed_out'] and 'Deadlock detected' not in res['err']:
                 j = None
-                if m and 0 <= int(m.group(1)) - 1 < np:
+                if 'killed' in last and 0 <= last['killed'] < np:
+                    j = last.get(str(last['killed']))
+                    if j is not None and ('%d,%d' % (j, last['killed'])) in T:
+                        j = None
+                elif m and 0 <= int(m.group(1)) - 1 < np:
                     j = last.get(str(int(m.group(1)) - 1))
                     if j is not None and ('%d,%d' % (j, int(m.group(1)) - 1)) in T:
                         j = None
@@ -446,10 +506,14 @@ class C29(dst.Check):
         res['refused'] = refused
         res['checked'] = checked
         res['badbuf'] = badbuf
+        plan.pop('hint_call', None)
+        plan.pop('known_hit', None)
         if viol:
             m = re.match(r'\[call=(\d+) ', viol[0][1])
             if m:
                 plan['hint_call'] = int(m.group(1))     # lets shrink() try the blamed call first
+            if self._is_known(plan, viol[0][0], viol[0][1]):
+                plan['known_hit'] = 1
 
     def oracle(self, plan, res):
         return [tuple(v) for v in res['viol']]
@@ -473,8 +537,9 @@ class C29(dst.Check):
         s['sim_seconds'] = max(ts) if ts else 0.0
         for i in res['checked']:
             c = plan['calls'][i]
-            coll, algo = algo_of(plan, c)
-            s['cov_%s:%s' % (coll, algo)] = s.get('cov_%s:%s' % (coll, algo), 0) + 1
+            if is_suspect_call(plan, c):
+                coll, algo = plan['suspect']
+                s['cov_%s:%s' % (coll, algo)] = s.get('cov_%s:%s' % (coll, algo), 0) + 1
             cnt = max(c['scount'], c['rcount'])
             if c['kind'] != 'barrier':
                 s['probe_count_zero'] += cnt == 0 and 'rcounts' not in c
@@ -516,7 +581,46 @@ class C29(dst.Check):
         return dict(algorithm_coverage=cov, pairs_touched_less_than_twice=missing, refused_counts=refused)
 
     # ---- shrinking ----------------------------------------------------------------------------------------
+    def _known(self):
+        if not hasattr(self, '_known_cache'):
+            try:
+                self._known_cache = [k for k in dst.load_known(self.pid) if k.get('status', 'open') == 'open']
+            except Exception:
+                self._known_cache = []
+        return self._known_cache
+
+    def _is_known(self, plan, cls, msg):
+        table = self.known_matchers()
+        for k in self._known():
+            if k.get('class') == cls:
+                fn = table.get(k.get('matcher'))
+                if fn and fn(plan, cls, msg):
+                    return True
+        return False
+
+    @staticmethod
+    def reduce_np(plan, n):
+        """the same plan on the first n ranks"""
+        old = plan['np']
+        p = dict(plan, np=n, hosts=plan['hosts'][:n])
+        calls = []
+        for c in plan['calls']:
+            c = dict(c, skew=c['skew'][:n], wskew=c['wskew'][:n], root=min(c['root'], n - 1))
+            for name in ('scounts', 'sdispls', 'rcounts', 'rdispls', 'stypes', 'rtypes'):
+                if name in c:
+                    m = c[name]
+                    if len(m) == old * old:
+                        c[name] = [m[i * old + j] for i in range(n) for j in range(n)]
+                    else:
+                        c[name] = m[:n]
+            calls.append(c)
+        p['calls'] = calls
+        return p
+
     def shrink(self, plan):
+        # a failure that already matches a known finding is not minimised further (the quick tier has ~100 of them)
+        if plan.get('known_hit'):
+            return
         calls = plan['calls']
         np = plan['np']
 
@@ -524,30 +628,39 @@ class C29(dst.Check):
             p = dict(plan)
             p['calls'] = cs
             p.update(kw)
+            p.pop('hint_call', None)
             return p
-        # 1. single calls, plain (no skew), most drastic first
+        plain = dict(hosts=list(range(np)), plat=dict(kind='cluster', nhosts=max(np, 2), lat_us=10, bw_MBps=125, loop_lat_us=0))
+        keep_cfg = {k: v for k, v in plan['cfg'].items() if k == 'smpi/coll-selector' or not k.endswith('thresh')
+                    and k != 'smpi/barrier-collectives'}
+        # 1. the blamed call alone (most drastic first), then other single calls and pairs with the blamed call
+        h = plan.get('hint_call')
         if len(calls) > 1:
-            for i in range(len(calls)):
-                c = dict(calls[i], skew=[0] * np, wskew=[0] * np, defer=0)
-                yield with_calls([c])
-            for i in range(len(calls)):
+            order = ([h] if h is not None and h < len(calls) else []) + [i for i in range(len(calls)) if i != h]
+            for i in order[:1]:
+                c = dict(calls[i], skew=[0] * np, wskew=[0] * np, defer=0, usetest=0)
+                yield with_calls([c], cfg=keep_cfg, **plain)
+                yield with_calls([calls[i]])
+            if h is not None and h < len(calls):
+                sus = [j for j in range(len(calls)) if j != h and is_suspect_call(plan, calls[j])]
+                for j in sus[:4]:
+                    yield with_calls([calls[min(j, h)], calls[max(j, h)]])
+                yield with_calls(calls[:h + 1])
+            for i in order[1:]:
                 yield with_calls([calls[i]])
             half = len(calls) // 2
             yield with_calls(calls[:half])
             yield with_calls(calls[half:])
             for i in range(len(calls)):
                 yield with_calls(calls[:i] + calls[i + 1:])
-        # 2. configuration: drop overrides / knobs not involved, trivial platform
-        for k in sorted(plan['cfg']):
-            if k != 'smpi/coll-selector':
-                cfg = dict(plan['cfg'])
-                del cfg[k]
-                yield with_calls(calls, cfg=cfg)
-        if plan['cfg'].get('smpi/coll-selector') != 'default':
-            yield with_calls(calls, cfg=dict(plan['cfg'], **{'smpi/coll-selector': 'default'}))
+        # 2. configuration: knobs not involved (never the suspect's own override), trivial platform, fewer ranks
+        if keep_cfg != plan['cfg']:
+            yield with_calls(calls, cfg=keep_cfg)
         if plan['hosts'] != list(range(np)) or plan['plat']['kind'] != 'cluster':
-            yield with_calls(calls, hosts=list(range(np)),
-                             plat=dict(kind='cluster', nhosts=max(np, 2), lat_us=10, bw_MBps=125, loop_lat_us=0))
+            yield with_calls(calls, **plain)
+        for n in (2, 3, 4, 5, 6, 7, 8, 9, 12):
+            if n < np and mc.np_class(n) == mc.np_class(np):
+                yield self.reduce_np(with_calls(calls), n)
         # 3. per call simplifications
         for i, c in enumerate(calls):
             def rep(**kw):
@@ -556,8 +669,6 @@ class C29(dst.Check):
                 yield rep(skew=[0] * np, wskew=[0] * np)
             if c.get('defer') or c.get('usetest'):
                 yield rep(defer=0, usetest=0)
-            if c['nb']:
-                yield rep(nb=0, defer=0, usetest=0, wskew=[0] * np)
             if c['inplace'] and c['kind'] != 'alltoallv':
                 yield rep(inplace=0)
             if c['root'] != 0:
@@ -565,12 +676,12 @@ class C29(dst.Check):
             if c['period'] != 251:
                 yield rep(period=251)
             if 'rcounts' not in c and 'scounts' not in c and c['kind'] != 'barrier':
-                fs = c['scount'] // max(1, min(c['scount'], c['rcount'])) if min(c['scount'], c['rcount']) else 1
-                fr = c['rcount'] // max(1, min(c['scount'], c['rcount'])) if min(c['scount'], c['rcount']) else 1
                 base = min(c['scount'], c['rcount'])
+                fs = c['scount'] // base if base else 1
+                fr = c['rcount'] // base if base else 1
                 tried = set()
                 for nb_ in (1, 2, np - 1, np, np + 1, base // 2, base - 1):
-                    if 0 < nb_ < base and nb_ not in tried:
+                    if 0 < nb_ < base and nb_ not in tried and mc.count_class(nb_, np) == mc.count_class(base, np):
                         tried.add(nb_)
                         yield rep(scount=nb_ * fs, rcount=nb_ * fr)
             if c['sdt'] == c['rdt'] and c['sdt'] in ('c3', 'v2') and c['kind'] not in REDUCE_KINDS and c['kind'] != 'alltoallw':
@@ -616,4 +727,5 @@ class MatcherTable(dict):
 
 
 CHECK = C29()
-CHECK.known_matchers = lambda: MatcherTable()
+C29.known_matchers = lambda self: MatcherTable()
+mc.install_proposed_findings()
